@@ -6,13 +6,16 @@
 #include <stdint.h>
 #include <lcdb.h>
 
-enum { CMP_BYTEWISE = 0, CMP_REVERSE = 1, CMP_LENFIRST = 2, CMP_KINDS = 3 };
+/* CMP_NOCASE: ASCII letters compare case-insensitively: distinct byte strings can be the SAME key
+   (a comparator with equivalence classes, legal for LevelDB as long as no byte-wise filter policy is used) */
+enum { CMP_BYTEWISE = 0, CMP_REVERSE = 1, CMP_LENFIRST = 2, CMP_NOCASE = 3, CMP_KINDS = 4 };
 
 typedef struct mver_s {
   uint64_t ver;      /* model version at which this entry became current */
   int present;       /* 0 = tombstone */
   uint64_t vid;      /* value id (see vh_fill_value) */
   uint32_t vlen;
+  uint32_t spell;    /* spelling of the key used by this write (CMP_NOCASE); 0 = canonical */
 } mver_t;
 
 typedef struct mrow_s {
@@ -40,6 +43,9 @@ void m_finalize(model_t *m);                           /* sort + dedupe */
 int m_find(const model_t *m, const void *k, size_t n); /* row or -1 */
 
 uint64_t m_put(model_t *m, int row, uint64_t vid, uint32_t vlen); /* returns new version */
+uint64_t m_put_spell(model_t *m, int row, uint64_t vid, uint32_t vlen, uint32_t spell);
+/* the row's key written with spelling `spell` (case of ASCII letters flipped pseudo-randomly); out has klen bytes */
+void m_spelled_key(const model_t *m, int row, uint32_t spell, uint8_t *out);
 uint64_t m_del(model_t *m, int row);
 /* newest entry with ver <= at (NULL = never written); tombstones are returned */
 const mver_t *m_get(const model_t *m, int row, uint64_t at);
